@@ -227,6 +227,14 @@ def rule_agreements(model):
                 for cn in model.callee_names(n, fi):
                     if cn.startswith('urllib.parse.'):
                         used.add(cn.split('.')[-1])
+            # the urllib function handed to a shared helper
+            if isinstance(n, ast.Attribute) and \
+                    norm(n.value) == 'urllib.parse':
+                used.add(n.attr)
+            if isinstance(n, ast.Name) and isinstance(n.ctx, ast.Load):
+                imp = fi.module.imports.get(n.id)
+                if imp and imp[0] == 'urllib.parse' and imp[1]:
+                    used.add(imp[1])
         r.instance(fi.where, f'urllib.parse: {sorted(used)}')
         if used != {want}:
             r.finding(fi.where, f'urllib.parse.{sorted(used)}', f'{name} '
@@ -290,17 +298,46 @@ def rule_agreements(model):
     tc = m.funcs.get('thousands_commas')
     if tc is None:
         raise AnalysisError('DT_Var.thousands_commas not found')
-    rx = None
+    rxs = set()
+
+    def is_rx(v):
+        return v is not None and 're.compile' in norm(v)
     for p_ in tc.params():
         d = model.param_default(tc, p_)
-        if d is not None and 're.compile' in norm(d):
-            rx = p_
+        if is_rx(d) or (isinstance(d, ast.Name) and any(
+                is_rx(g) for g in m.globals.get(d.id, []))):
+            rxs.add(p_)
+    for gname, gvals in m.globals.items():
+        if any(is_rx(g) for g in gvals):
+            rxs.add(gname)
     fed = [n.args[0] for n in own_nodes(tc.node) if isinstance(n, ast.Call)
-           and isinstance(n.func, ast.Name) and n.func.id == rx and n.args]
+           and isinstance(n.func, ast.Name) and n.func.id in rxs and n.args]
+    fed += [n.args[0] for n in own_nodes(tc.node) if isinstance(n, ast.Call)
+            and isinstance(n.func, ast.Attribute)
+            and n.func.attr in ('search', 'match')
+            and isinstance(n.func.value, ast.Name)
+            and n.func.value.id in rxs and n.args]
     ok = False
+
+    def from_dot_split(sx):
+        return isinstance(sx, ast.Call) and \
+            isinstance(sx.func, ast.Attribute) and \
+            sx.func.attr in ('split', 'partition') and sx.args and \
+            isinstance(sx.args[0], ast.Constant) and sx.args[0].value == '.'
     for a in fed:
         if isinstance(a, ast.Name):
             for d in model.local_defs(tc, a.id):
+                # whole, dot, fraction = str(v).partition('.'): the first
+                # target of the unpacking is the part before the first '.'
+                if isinstance(d, tuple) and d[0] == 'unpack' and \
+                        from_dot_split(d[1]):
+                    for st in own_nodes(tc.node):
+                        if isinstance(st, ast.Assign) and \
+                                st.value is d[1] and \
+                                isinstance(st.targets[0], ast.Tuple) and \
+                                norm(st.targets[0].elts[0]) == a.id:
+                            ok = True
+                # re-assignments of the grouped variable from itself
                 if isinstance(d, ast.Subscript) and \
                         isinstance(d.slice, ast.Constant) and \
                         d.slice.value == 0:
